@@ -1,4 +1,4 @@
-\* liveness with every switch in the position of the CODE (HEAD 77cb0ff): EventuallyStarted is violated; the
+\* liveness with every switch in the position of the code BEFORE fix 9f39a0c (TaskEndNotifies = FALSE): EventuallyStarted is violated; the
 \* counterexample re-queues an upload whose old task is still in flight, the cycle skips it, the task ends, nothing follows.
 SPECIFICATION FairSpec
 CONSTANTS
@@ -22,6 +22,7 @@ CONSTANTS
   WPriv = 100
   StateChangeNotifies = TRUE
   SlotsChangeNotifies = TRUE
+  ManagedEveryCycle = TRUE
   TaskEndNotifies = FALSE
   RequeueTail = FALSE
   TrackPerUser = TRUE
